@@ -264,4 +264,4 @@ unsafe impl Sync for PagePool {}
 
 #[cfg(kani)]
 #[path = "/verif/units/kani/page_pool.rs"]
-mod verif_kani;
+pub(crate) mod verif_kani;
